@@ -4,7 +4,7 @@ import tempfile
 from .. import pure, common as C
 
 KINDS = {0: "healthy", 1: "close-in-handshake", 2: "abrupt-loss", 3: "orderly-close", 4: "http-404", 5: "stall",
-         6: "bad-frame", 7: "no-answer-to-connect", 8: "refused"}
+         6: "bad-frame", 7: "no-answer-to-connect", 8: "refused", 9: "bad-frame-with-request-in-flight"}
 
 
 def _split(res):
